@@ -16,7 +16,7 @@ from ..common import resolve_single_assign
 from ..selftest import Seed
 
 META = {
-    "technique": "ownership (freshness) analysis of every in-place write, effect analysis of memoised computations, who-may-write of the variable store, thunk-shape check of dictionary literals",
+    "technique": "ownership (freshness) analysis of every in-place write, effect analysis of memoised computations, who-may-write of the variable store, thunk-shape check of dictionary literals, must-pass invalidation on every normal path of the variable writers, re-wrap rule of call()",
     "level_text": "Static proof over every in-place write site of the evaluation code that the written object was allocated in the same activation (or is a documented shared dictionary), and over every memo site that the memoised computation has no skipped effect and no stale input. This is exactly the hidden state a single evaluation cannot see (second evaluation, later write through a view, rebinding); equality of results is not decided.",
     "level_note": "decides the structural clause below from source; does not decide the behaviour. Trusted: the frozen NumPy/Python API table in sa/fresh.py (allocating vs aliasing vs in-place); values reachable from syntax-tree nodes and parameters are shared.",
     "explanation": (
@@ -25,7 +25,8 @@ META = {
         "in-place method, numpy.put/out=, augmented assignment must target a FRESH value, except the three documented dictionary updates "
         "(Join both operand orders, Drop), each under a dict test; (R2) for each memo (parse cache, compiled cache, node-level _compiled) the "
         "transitive write effects of the memoised computation and the invalidation on every variable write path; (R3) the reader hands a "
-        "dictionary literal to the program only inside a call node whose function returns a copy of its argument."),
+        "dictionary literal to the program only inside a call node whose function returns a copy of its argument."
+        " The invalidation of the compiled-expression memo must be reached on every normal path of __setitem__/__delitem__ (not only exist), and call() must re-wrap every function node so that per-node memos land on throw-away nodes."),
     "assumptions": ["allocating / aliasing / in-place API facts as listed in coverage.trusted_base", "interpreter state (variable store, caches) is written through self/klong receivers only"],
 }
 
